@@ -36,7 +36,7 @@ def needSome {β : Type} (o : Option β) : P β :=
   | none => throw "num_probes=0 (mean over an empty axis)"
 
 /-- shape description: `isarray(0/1) rank dim_1 … dim_rank` -/
-def pShape : P (Option (List Nat)) := do
+def pShapeJac : P (Option (List Nat)) := do
   let isArr ← pNat
   let rank ← pNat
   let mut dims : List Nat := []
@@ -92,7 +92,7 @@ def opsJacobian : List (String × Handler) := [
       pure (showTen3 (← needSome (J.revDiag (fun _ : Fin 1 => v))))
     pure (" ".intercalate outs)),
   ("jac_verify", do
-    let x ← pShape; let fx ← pShape; pEnd
+    let x ← pShapeJac; let fx ← pShapeJac; pEnd
     match verifyFunAndX x fx with
     | .ok (nIn, nOut, d) => pure s!"accept {nIn} {nOut} {d}"
     | .error .typeError => pure "TypeError"
